@@ -68,12 +68,36 @@ def Maximal (c : Cfg) : Prop :=
         ∃ es, recover c (afterLoad c (lossyImageAt {} (runActs c mk nl bs acts).ops i j k)) = Index.replay [] es ∧
           entsOf sb <+: es
 
-/-- The full-strength statement.  (Histories are chronicler sessions from an empty directory
-    without compaction; a second crash during the recovery is not covered.) -/
+/-- the run of a chronicler that starts on the clean file a recovery (or a `Close` and a `Load`)
+    left behind — `bs0` are the blocks the load returned; the repaired open has cut everything
+    behind them.  Its log starts with operations that produce exactly that file and ends with an
+    fsync: what survived a crash is on the disk, so a later crash can only lose writes of the
+    resumed session. -/
+def resumedRun (nl bs : Nat) (bs0 : List Block) : Run :=
+  { cs := { w := none, nlName := nl, bs := bs },
+    d := { main := some (fileCells nl bs0), temp := none },
+    ops := sessionOps nl (bs0.map Ev.blk ++ ([Ev.sync] ++ [])) }
+
+/-- Clause 3 (the history goes on): a chronicler that resumes on the file a recovery — or a
+    `Close` followed by a `Load` — left behind, runs any acts and crashes again at any point of the
+    resumed session still loads a prefix of `recovered ++ written` that contains everything
+    recovered before and everything synced since. -/
+def Resumes (c : Cfg) : Prop :=
+  ∀ (mk : Mk), MkOk mk → ∀ (nl bs : Nat) (bs0 : List Block), (∀ b ∈ bs0, b.WF) → ∀ (acts : List Act) (i j k : Nat),
+    CrashPoint (acts.foldl (Run.step c mk) (resumedRun nl bs bs0)).ops i j → (resumedRun nl bs bs0).ops.length ≤ i →
+    ∃ es, es <+: entsOf bs0 ++ written acts ∧ entsOf bs0 <+: es ∧
+      syncedEntries c (acts.foldl (Run.step c mk) (resumedRun nl bs bs0)).ops i <+: es ∧
+      recover c (afterLoad c (lossyImageAt {} (acts.foldl (Run.step c mk) (resumedRun nl bs bs0)).ops i j k)) =
+        Index.replay [] es
+
+/-- The full-strength statement.  (Histories are chronicler sessions from an empty directory, or
+    resumed on a recovered file, without compaction; a crash during the recovery itself — the
+    truncate of the repaired open — is covered by the metadata rule of the crash model only.) -/
 structure Holds (c : Cfg) : Prop where
   recovers : Recovers c
   maximal : Maximal c
   appendable : Appendable c
+  resumes : Resumes c
 
 /-! ### The repaired reader: every crash image recovers -/
 
@@ -153,13 +177,12 @@ theorem durable_entries_prefix (c : Cfg) (hc : GoodR c.r) (nl : Nat) (evs : List
       obtain ⟨r, hr⟩ := hp
       rw [← hr, entsOf_append]; exact List.prefix_append _ _
 
-/-- **Every crash image recovers (repaired reader).**  With a reader that treats a torn tail
-    (short block header, short payload, short file header) as the end of the data, for every
-    history and every crash point the load returns the entries of a prefix of the flushed blocks
-    — a flush boundary — that is no older than the last completed fsync. -/
-theorem recover_total_prefix (c : Cfg) (hc : GoodR c.r) : Recovers c := by
-  intro mk hmk nl bs acts i j k hcp
-  have hinv := run_inv c mk hmk nl bs acts
+/-- what the session invariant gives for any run that satisfies it: every crash image recovers to
+    a flush boundary no older than the last completed fsync -/
+theorem recover_of_inv (c : Cfg) (hc : GoodR c.r) (mk : Mk) (nl bs : Nat) (r : Run) (wr : List Op)
+    (hinv : RInv mk nl bs r wr) (i j k : Nat) (hcp : CrashPoint r.ops i j) :
+    ∃ es, es <+: wr ∧ syncedEntries c r.ops i <+: es ∧
+      recover c (afterLoad c (lossyImageAt {} r.ops i j k)) = Index.replay [] es := by
   rcases hinv.shape with ⟨hops, _, _, _⟩ | ⟨evs, hst⟩
   · -- nothing was ever written
     rw [hops] at hcp ⊢
@@ -169,14 +192,14 @@ theorem recover_total_prefix (c : Cfg) (hc : GoodR c.r) : Recovers c := by
       have : i = 0 := by simpa using hi
       subst this
       simp [lossyImageAt, imageAt, Disk.applyAll, afterLoad, loadOps, rmTempOps, recover, mainIndex, Index.replay]
-  · have hops : (runActs c mk nl bs acts).ops = sessionOps nl evs := hst.ops
+  · have hops : r.ops = sessionOps nl evs := hst.ops
     rw [hops] at hcp ⊢
     -- the flushed blocks hold a prefix of what was written
-    have hwr : entsOf (evBlocks evs) <+: written acts := by
+    have hwr : entsOf (evBlocks evs) <+: wr := by
       have := hst.writer
       split at this
       · rw [this]; exact List.prefix_refl _
-      · obtain ⟨_, _, h⟩ := this; rw [← h]; exact List.prefix_append _ _
+      · obtain ⟨_, _, h, _⟩ := this; rw [← h]; exact List.prefix_append _ _
     obtain ⟨img, himg, _, hshape⟩ := session_crash_image c nl evs i j k hcp
     rw [himg]
     rcases hshape with ⟨hnone, hdur⟩ | ⟨g, hg, hdg, hgf⟩
@@ -194,6 +217,14 @@ theorem recover_total_prefix (c : Cfg) (hc : GoodR c.r) : Recovers c := by
         conv => rhs; rw [← hr, entsOf_append]
         exact List.prefix_append _ _
       · rw [recover_eq_loadEntries c _ g hg, hload]
+
+/-- **Every crash image recovers (repaired reader).**  With a reader that treats a torn tail
+    (short block header, short payload, short file header) as the end of the data, for every
+    history and every crash point the load returns the entries of a prefix of the flushed blocks
+    — a flush boundary — that is no older than the last completed fsync. -/
+theorem recover_total_prefix (c : Cfg) (hc : GoodR c.r) : Recovers c := by
+  intro mk hmk nl bs acts i j k hcp
+  exact recover_of_inv c hc mk nl bs _ _ (run_inv c mk hmk nl bs acts) i j k hcp
 
 /-- every whole block contained in the image is loaded (repaired reader) -/
 theorem recover_maximal (c : Cfg) (hc : GoodR c.r) : Maximal c := by
@@ -255,8 +286,8 @@ theorem append_after_recovery (c : Cfg) (hc : GoodR c.r) (ht : c.truncatesTornTa
   generalize afterLoad c (lossyImageAt {} (runActs c mk nl bs acts).ops i j k) = d at htemp hmain ⊢
   obtain ⟨bs0, w, o, hopen, hwinv, hp, hbuf, hwf0, hrec⟩ := open_repaired c hc ht nl bs blocks hwf d htemp hmain
   have hemp : items.isEmpty = false := by cases items <;> simp_all
-  obtain ⟨a, ha, pa⟩ := addManyW_spec mk hmk items (d.applyAll o) w (fileCells nl bs0) hwinv
-  obtain ⟨nbs, hn, hnwf, hget⟩ := syncW_spec c mk hmk _ _ _ pa.inv
+  obtain ⟨a, ha, pa⟩ := addManyW_spec mk hmk items (d.applyAll o) w (fileCells nl bs0) hwinv (by rw [hbuf]; exact maxEnts_pos)
+  obtain ⟨nbs, hn, hnwf, hget⟩ := syncW_spec c mk hmk _ _ _ pa.inv (Nat.le_of_lt pa.cnt)
   have hpath : (addManyW mk w items).1.path = .main := by rw [pa.path, hp]
   rw [hpath] at hget
   simp only [cWrite, hemp, ensureW, hopen, cSync, Bool.false_eq_true, if_false]
@@ -278,20 +309,149 @@ theorem append_after_recovery (c : Cfg) (hc : GoodR c.r) (ht : c.truncatesTornTa
   rw [← hrec]
   rfl
 
+/-! ### Histories that go on after a recovery (or a Load): a second crash -/
+
+/-- what is durable only grows -/
+theorem durAt_mono (evs : List Ev) : ∀ (f D : List Cell) (i : Nat), D <+: f → D <+: durAt evs f D i := by
+  induction evs with
+  | nil => intro f D i _; exact List.prefix_refl _
+  | cons e r ih =>
+    intro f D i h
+    cases e with
+    | sync =>
+      simp only [durAt]
+      split
+      · exact List.prefix_refl _
+      · exact h.trans (ih f f (i - 1) (List.prefix_refl _))
+    | hdr =>
+      simp only [durAt]
+      split
+      · exact List.prefix_refl _
+      · exact ih f D (i - 1) h
+    | blk b =>
+      simp only [durAt]
+      split
+      · exact List.prefix_refl _
+      · exact ih (f ++ blockCells b) D (i - 3) (h.trans (List.prefix_append _ _))
+
+/-- once the fsync behind the blocks `bs0` has completed, they are durable -/
+theorem durAt_blks_sync (bs0 : List Block) (t : List Ev) : ∀ (f D : List Cell) (i : Nat), 3 * bs0.length + 1 ≤ i →
+    f ++ render bs0 <+: durAt (bs0.map Ev.blk ++ ([Ev.sync] ++ t)) f D i := by
+  induction bs0 with
+  | nil =>
+    intro f D i hi
+    simp only [List.map_nil, List.nil_append, List.cons_append, durAt, render, List.flatMap_nil, List.append_nil]
+    rw [if_neg (by omega)]
+    exact durAt_mono t f f (i - 1) (List.prefix_refl _)
+  | cons b r ih =>
+    intro f D i hi
+    simp only [List.map_cons, List.cons_append, durAt]
+    rw [if_neg (by simp only [List.length_cons] at hi; omega)]
+    have := ih (f ++ blockCells b) D (i - 3) (by simp only [List.length_cons] at hi; omega)
+    simpa [render, List.append_assoc] using this
+
+theorem evBlocks_blks (bs0 : List Block) (t : List Ev) : evBlocks (bs0.map Ev.blk ++ t) = bs0 ++ evBlocks t := by
+  induction bs0 with
+  | nil => rfl
+  | cons b r ih => simp [evBlocks, ih]
+
+theorem evOps_blks_length (nl : Nat) (bs0 : List Block) (t : List Ev) : ∀ L,
+    (evOps nl L (bs0.map Ev.blk ++ t)).length = 3 * bs0.length + (evOps nl (L + (render bs0).length) t).length := by
+  induction bs0 with
+  | nil => intro L; simp [render]
+  | cons b r ih =>
+    intro L
+    simp only [List.map_cons, List.cons_append, evOps, List.length_cons, ih]
+    have : L + 16 + b.plen + (render r).length = L + (render (b :: r)).length := by
+      simp [render]; omega
+    rw [this]; omega
+
+theorem resumed_started (mk : Mk) (nl bs : Nat) (bs0 : List Block) (hwf : ∀ b ∈ bs0, b.WF) :
+    Started mk nl bs (resumedRun nl bs bs0) (entsOf bs0) (bs0.map Ev.blk ++ ([Ev.sync] ++ [])) := by
+  refine ⟨rfl, ?_, ?_, ?_⟩
+  · simp [resumedRun, evBlocks_blks, evBlocks]
+  · intro b hb; rw [evBlocks_blks] at hb; simp [evBlocks] at hb; exact hwf b hb
+  · show entsOf (evBlocks (bs0.map Ev.blk ++ ([Ev.sync] ++ []))) = entsOf bs0
+    rw [evBlocks_blks]; simp [evBlocks]
+
+/-- **A second crash loses nothing the first recovery returned.**  A chronicler resumes on the
+    file a recovery left behind (blocks `bs0`), runs any acts, and crashes again at any point of
+    the resumed session (in-flight operation torn anywhere, any suffix of the writes since the last
+    fsync lost): the next load returns a prefix of `recovered ++ written` that contains everything
+    recovered before and everything synced since. -/
+theorem second_crash_recovers (c : Cfg) (hc : GoodR c.r) (mk : Mk) (hmk : MkOk mk) (nl bs : Nat) (bs0 : List Block)
+    (hwf : ∀ b ∈ bs0, b.WF) (acts : List Act) (i j k : Nat)
+    (hcp : CrashPoint (acts.foldl (Run.step c mk) (resumedRun nl bs bs0)).ops i j)
+    (hi : (resumedRun nl bs bs0).ops.length ≤ i) :
+    ∃ es, es <+: entsOf bs0 ++ written acts ∧ entsOf bs0 <+: es ∧
+      syncedEntries c (acts.foldl (Run.step c mk) (resumedRun nl bs bs0)).ops i <+: es ∧
+      recover c (afterLoad c (lossyImageAt {} (acts.foldl (Run.step c mk) (resumedRun nl bs bs0)).ops i j k)) =
+        Index.replay [] es := by
+  obtain ⟨e2, hst⟩ := run_started c mk hmk nl bs acts _ _ _ rfl (resumed_started mk nl bs bs0 hwf)
+  have hops := hst.ops
+  rw [show createOps Path.main nl ++ evOps nl (64 + nl) (bs0.map Ev.blk ++ ([Ev.sync] ++ []) ++ e2) =
+      sessionOps nl (bs0.map Ev.blk ++ ([Ev.sync] ++ e2)) by simp [sessionOps, List.append_assoc]] at hops
+  have hblocks : evBlocks (bs0.map Ev.blk ++ ([Ev.sync] ++ []) ++ e2) = bs0 ++ evBlocks e2 := by
+    rw [List.append_assoc, evBlocks_blks]; simp [evBlocks]
+  have hwfall : ∀ b ∈ bs0 ++ evBlocks e2, b.WF := by rw [← hblocks]; exact hst.wf
+  have hblocks' : evBlocks (bs0.map Ev.blk ++ ([Ev.sync] ++ e2)) = bs0 ++ evBlocks e2 := by
+    rw [evBlocks_blks]; simp [evBlocks]
+  rw [hops] at hcp ⊢
+  -- the flushed blocks hold a prefix of what was written
+  have hwr : entsOf (bs0 ++ evBlocks e2) <+: entsOf bs0 ++ written acts := by
+    have := hst.writer
+    rw [hblocks] at this
+    split at this
+    · rw [this]; exact List.prefix_refl _
+    · obtain ⟨_, _, h, _⟩ := this; rw [← h]; exact List.prefix_append _ _
+  -- the recovered file is durable throughout the resumed session
+  have hlen0 : (resumedRun nl bs bs0).ops.length = (createOps .main nl).length + (3 * bs0.length + 1) := by
+    simp only [resumedRun, sessionOps, List.length_append, evOps_blks_length]
+    simp [evOps]
+  have hbase : fileCells nl bs0 <+: sessionDurable nl (bs0.map Ev.blk ++ ([Ev.sync] ++ e2)) i := by
+    unfold sessionDurable
+    rw [if_neg (by omega)]
+    have := durAt_blks_sync bs0 e2 (fileCells nl []) [] (i - (createOps .main nl).length) (by omega)
+    simpa [fileCells, render, List.append_assoc] using this
+  obtain ⟨img, himg, _, hshape⟩ := session_crash_image c nl _ i j k hcp
+  rw [himg]
+  have hwf' : ∀ b ∈ evBlocks (bs0.map Ev.blk ++ ([Ev.sync] ++ e2)), b.WF := by rw [hblocks']; exact hwfall
+  rcases hshape with ⟨_, hdur⟩ | ⟨g, hg, hdg, hgf⟩
+  · rw [hdur] at hbase
+    have := hbase.length_le
+    simp [fileCells] at this
+  · obtain ⟨m, hm, hload, hmax⟩ := loadFile_prefix_good c.r hc nl _ hwf' g hgf
+    have hsyn := durable_entries_prefix c hc nl _ hwf' i g hdg m hmax
+    rw [hblocks'] at hload hmax hsyn hm
+    refine ⟨entsOf ((bs0 ++ evBlocks e2).take m), ?_, ?_, hsyn, ?_⟩
+    · have : (bs0 ++ evBlocks e2).take m <+: bs0 ++ evBlocks e2 := List.take_prefix _ _
+      obtain ⟨r, hr⟩ := this
+      refine List.IsPrefix.trans ?_ hwr
+      conv => rhs; rw [← hr, entsOf_append]
+      exact List.prefix_append _ _
+    · have hl := hmax bs0 (List.prefix_append _ _) (hbase.trans hdg)
+      have e : bs0 = (bs0 ++ evBlocks e2).take bs0.length := by simp
+      have hp : (bs0 ++ evBlocks e2).take bs0.length <+: (bs0 ++ evBlocks e2).take m := by
+        have h1 : (bs0 ++ evBlocks e2).take bs0.length = ((bs0 ++ evBlocks e2).take m).take bs0.length := by
+          rw [List.take_take]; congr 1; omega
+        rw [h1]; exact List.take_prefix _ _
+      obtain ⟨r, hr⟩ := hp
+      rw [← hr, entsOf_append, ← e]; exact List.prefix_append _ _
+    · rw [recover_eq_loadEntries c _ g hg, hload]
+
 /-- C02 holds for the repaired reader and the repaired open. -/
 theorem holds_of_repaired (c : Cfg) (hc : GoodR c.r) (ht : c.truncatesTornTail = true) : Holds c :=
-  ⟨recover_total_prefix c hc, recover_maximal c hc, append_after_recovery c hc ht⟩
+  ⟨recover_total_prefix c hc, recover_maximal c hc, append_after_recovery c hc ht,
+   fun mk hmk nl bs bs0 hwf acts i j k hcp hi => second_crash_recovers c hc mk hmk nl bs bs0 hwf acts i j k hcp hi⟩
 
 /-! ### The code as it is: closed witnesses -/
 
 /-- encoder of the witnesses: two payload bytes per block -/
-def mk2 : Mk := fun es => { hdr := [2, 0, 0, 0, 0, 0, 0, 0, 0, 0, 0, 0, 0, 0, 0, 0], plen := 2, ents := es }
+def mk2 : Mk := mkP 2
 
-theorem mk2_ok : MkOk mk2 := by
-  intro es _
-  exact ⟨⟨rfl, rfl, by show 0 < 2; omega⟩, rfl⟩
+theorem mk2_ok : MkOk mk2 := mkP_ok 2 (by decide)
 
-theorem mk2_wf (es : List Op) : (mk2 es).WF := ⟨rfl, rfl, by show 0 < 2; omega⟩
+theorem mk2_wf (es : List Op) (h : es ≠ []) (hl : es.length ≤ maxEnts) : (mk2 es).WF := (mk2_ok es h hl).1
 
 /-- **A torn payload is a load error** (for any reader that does not map the short read to EOF):
     whole blocks followed by a block cut inside its payload do not load at all. -/
@@ -318,12 +478,12 @@ theorem not_recovers_of_torn_error (c : Cfg) (h : c.r.tornDataIsEOF = false) (hs
   let acts : List Act := [.w [(Op.put 1 1, 200)], .sync, .w [(Op.put 2 2, 200)]]
   have hops : (runActs c mk2 0 100 acts).ops = sessionOps 0 [.blk b1, .hdr, .sync, .blk b2] := by
     simp [acts, runActs, Run.step, cWrite, cSync, ensureW, openWriter, Disk.get, addManyW, addW, flushW, syncW,
-      createOps, hs, mk2, Disk.applyAll, Disk.apply, Disk.set, splice, List.drop_of_length_le, sessionOps, evOps, b1, b2]
-  have hwf1 : ∀ b ∈ [b1], b.WF := by intro b hb; simp at hb; subst hb; exact mk2_wf _
+      createOps, hs, mk2, mkP, WSt.push, WSt.full, maxEnts, Disk.applyAll, Disk.apply, Disk.set, splice, List.drop_of_length_le, sessionOps, evOps, b1, b2]
+  have hwf1 : ∀ b ∈ [b1], b.WF := by intro b hb; simp at hb; subst hb; exact mk2_wf _ (by simp) (by decide)
   have hexp : sessionOps 0 [.blk b1, .hdr, .sync, .blk b2] =
       sessionOps 0 [.blk b1, .hdr, .sync] ++
         [.write .main 82 (hdrCells b2), .write .main 98 (payCells b2), .write .main 0 (fhCells 0)] := by
-    simp [sessionOps, evOps, createOps, b1, mk2]
+    simp [sessionOps, evOps, createOps, b1, mk2, mkP]
   have hlen7 : (sessionOps 0 [.blk b1, .hdr, .sync]).length = 7 := by simp [sessionOps, evOps, createOps]
   have hls : lastSyncIdx (sessionOps 0 [.blk b1, .hdr, .sync, .blk b2]) 8 = 7 := by
     simp [sessionOps, evOps, createOps, lastSyncIdx, FsOp.isSync]
@@ -337,7 +497,7 @@ theorem not_recovers_of_torn_error (c : Cfg) (h : c.r.tornDataIsEOF = false) (hs
     simp [evBlocks]
   have hse : syncedEntries c (sessionOps 0 [.blk b1, .hdr, .sync, .blk b2]) 8 = [Op.put 1 1] := by
     simp only [syncedEntries, hsf, loadEntries, loadFile_clean c.r 0 [b1] hwf1]
-    simp [entsOf, b1, mk2]
+    simp [entsOf, b1, mk2, mkP]
   rw [hse] at hsyn
   -- the image: first block whole, second cut one byte into its payload
   have himg : (afterLoad c (lossyImageAt {} (sessionOps 0 [.blk b1, .hdr, .sync, .blk b2]) 8 8 1)).main =
@@ -350,7 +510,7 @@ theorem not_recovers_of_torn_error (c : Cfg) (h : c.r.tornDataIsEOF = false) (hs
       simp [List.take_of_length_le, hlen7]
     have hget : (sessionOps 0 [.blk b1, .hdr, .sync, .blk b2])[8]? = some (.write .main 98 (payCells b2)) := by
       rw [hexp, List.getElem?_append_right (by omega), hlen7]; rfl
-    have hfl : (fileCells 0 [b1]).length = 82 := by simp [fileCells, render, nmCells, b1, mk2]
+    have hfl : (fileCells 0 [b1]).length = 82 := by simp [fileCells, render, nmCells, b1, mk2, mkP]
     have htemp : (lossyImageAt {} (sessionOps 0 [.blk b1, .hdr, .sync, .blk b2]) 8 8 1).temp = none := by
       simp only [lossyImageAt, Nat.le_refl, if_true]
       exact imageAt_onlyMain_temp _ (sessionOps_onlyMain _ _) 8 1
@@ -368,7 +528,7 @@ theorem not_recovers_of_torn_error (c : Cfg) (h : c.r.tornDataIsEOF = false) (hs
       rw [apply_write_main _ (fileCells 0 [b1] ++ hdrCells b2) rfl, h98, splice_end]
     simp only [lossyImageAt, Nat.le_refl, if_true, imageAt, hget, htake, Disk.applyAll_append, d7,
       Disk.applyAll_cons, Disk.applyAll_nil, Disk.applyTorn, d8, d9, h17, List.append_assoc]
-  have hload := torn_block_load_error c.r h 0 [b1] hwf1 b2 (mk2_wf _) 17 (by omega) (by show 17 < 16 + 2; omega)
+  have hload := torn_block_load_error c.r h 0 [b1] hwf1 b2 (mk2_wf _ (by simp) (by decide)) 17 (by omega) (by show 17 < 16 + 2; omega)
   have hrec0 : recover c (afterLoad c (lossyImageAt {} (sessionOps 0 [.blk b1, .hdr, .sync, .blk b2]) 8 8 1)) = [] := by
     simp [recover, mainIndex, himg, hload]
   rw [hrec0] at hrec
@@ -395,7 +555,8 @@ theorem torn_create_bricks (c : Cfg) (ht : c.truncatesTornTail = false) : ¬ App
   intro ha
   let acts : List Act := [.w [(Op.put 1 1, 10)]]
   have hops : (runActs c mk2 0 100 acts).ops = sessionOps 0 [] := by
-    simp [acts, runActs, Run.step, cWrite, ensureW, openWriter, Disk.get, addManyW, addW, createOps, sessionOps, evOps]
+    simp [acts, runActs, Run.step, cWrite, ensureW, openWriter, Disk.get, addManyW, addW, createOps, sessionOps, evOps,
+      WSt.push, WSt.full, maxEnts]
   have h := ha mk2 mk2_ok 0 100 acts 1 1 10 (by
     rw [hops]; exact ⟨by simp [sessionOps, evOps, createOps], by simp [lastSyncIdx, sessionOps, createOps, evOps, FsOp.isSync], by omega⟩)
     [(Op.put 3 3, 10)] (by simp)
@@ -425,7 +586,7 @@ theorem append_after_torn_tail_strands (c : Cfg) (ht : c.truncatesTornTail = fal
   let acts : List Act := [.w [(Op.put 1 1, 200)]]
   have hops : (runActs c mk2 0 100 acts).ops = sessionOps 0 [.blk b1] := by
     simp [acts, runActs, Run.step, cWrite, ensureW, openWriter, Disk.get, addManyW, addW, flushW, createOps,
-      sessionOps, evOps, mk2, b1]
+      sessionOps, evOps, mk2, mkP, WSt.push, WSt.full, maxEnts, b1]
   have h := ha mk2 mk2_ok 0 100 acts 3 3 1 (by
     rw [hops]; exact ⟨by simp [sessionOps, evOps, createOps], by simp [lastSyncIdx, sessionOps, createOps, evOps, FsOp.isSync], by omega⟩)
     [(Op.put 3 3, 200)] (by simp)
@@ -467,8 +628,8 @@ theorem append_after_torn_tail_strands (c : Cfg) (ht : c.truncatesTornTail = fal
     simp [openWriter, Disk.get, hhdr.headerOf, ht]
   have hwinv : WInv { main := some g, temp := none }
       { path := .main, pos := g.length, nl := 0, buf := [], bufSize := 0, bs := 100 } g := ⟨rfl, rfl, hhdr⟩
-  obtain ⟨a, hae, pa⟩ := addManyW_spec mk2 mk2_ok [(Op.put 3 3, 200)] _ _ _ hwinv
-  obtain ⟨nbs, hn, hnwf, hget⟩ := syncW_spec c mk2 mk2_ok _ _ _ pa.inv
+  obtain ⟨a, hae, pa⟩ := addManyW_spec mk2 mk2_ok [(Op.put 3 3, 200)] _ _ _ hwinv maxEnts_pos
+  obtain ⟨nbs, hn, hnwf, hget⟩ := syncW_spec c mk2 mk2_ok _ _ _ pa.inv (Nat.le_of_lt pa.cnt)
   rw [pa.path] at hget
   simp only [himg, cWrite, List.isEmpty_cons, Bool.false_eq_true, if_false, ensureW, hopen, cSync, List.nil_append,
     Disk.applyAll_nil] at h
@@ -486,7 +647,7 @@ theorem append_after_torn_tail_strands (c : Cfg) (ht : c.truncatesTornTail = fal
     cases hab : a ++ nbs with
     | nil => exact absurd hab hne
     | cons b' t => simp [render, blockCells, hdrCells_eq]
-  have hstr := loadEntries_strands c.r 0 [] (by simp) b1 (mk2_wf _) 17 (by omega) (by show 17 < 16 + 2; omega)
+  have hstr := loadEntries_strands c.r 0 [] (by simp) b1 (mk2_wf _ (by simp) (by decide)) 17 (by omega) (by show 17 < 16 + 2; omega)
     (render (a ++ nbs)) hrest
   have hg : g ++ render (a ++ nbs) = fileCells 0 [] ++ ((blockCells b1).take 17 ++ render (a ++ nbs)) := by
     simp [g, List.append_assoc]
@@ -495,7 +656,7 @@ theorem append_after_torn_tail_strands (c : Cfg) (ht : c.truncatesTornTail = fal
   have hr1 := recover_eq_loadEntries c _ _ hfin
   have hr0 : recover c { main := some g, temp := none } = [] := by
     rw [recover_eq_loadEntries c _ g rfl]
-    have := loadFile_base_tail c.r 0 [] (by simp) b1 (mk2_wf _) 17 (by show 17 < 16 + 2; omega)
+    have := loadFile_base_tail c.r 0 [] (by simp) b1 (mk2_wf _ (by simp) (by decide)) 17 (by show 17 < 16 + 2; omega)
     simp only [loadEntries, g, this]
     cases stopOk c.r (tailStop 17) <;> simp [entsOf, Index.replay]
   rw [hr1, hl0, hr0] at h
@@ -528,7 +689,8 @@ theorem C02_partial (c : RCfg) (h : c.shortHeaderIsEOF = true) (nl : Nat) (bs : 
 example : MkOk mk2 ∧ (runActs ⟨⟨true, true, false⟩, true, true, true, true, true, true, true⟩ mk2 0 100
     [.w [(Op.put 1 1, 200)], .sync]).ops.length = 7 := by
   refine ⟨mk2_ok, ?_⟩
-  simp [runActs, Run.step, cWrite, cSync, ensureW, openWriter, Disk.get, addManyW, addW, flushW, syncW, createOps, mk2]
+  simp [runActs, Run.step, cWrite, cSync, ensureW, openWriter, Disk.get, addManyW, addW, flushW, syncW, createOps, mk2, mkP,
+    WSt.push, WSt.full, maxEnts]
 
 /-! ### Decision over the extracted facts -/
 
@@ -552,6 +714,16 @@ structure Facts where
   handlerSyncsAfterWrite : Tri
   /-- chroniclerV2.Sync forwards to FileWriter.Sync -/
   chronSyncForwards : Tri
+  /-- `WriteBuffer.Add` reports full at `math.MaxUint16` entries: a fault-free writer never hands
+      `CompressEntries` more than the 16-bit count field holds (the bound of `MkOk`) -/
+  flushesAtCountBound : Tri
+  /-- the reader assumptions of the model (established by C04): a payload that is not the one
+      written fails the checksum; the decoded length and the entry count are checked -/
+  validatesCrc : Tri
+  crcBeforeDecompress : Tri
+  validatesULen : Tri
+  boundsDecodedLen : Tri
+  parseConsumesAll : Tri
   deriving Repr
 
 def cfgOf (f : Facts) : Cfg :=
@@ -565,7 +737,8 @@ def cfgOf (f : Facts) : Cfg :=
 def modelApplies (f : Facts) : Bool :=
   f.flushOrderCanonical.isYes && f.opensExistingForAppend.isYes && f.loadAbortsOnError.isYes &&
   f.syncFsyncs.isYes && f.closeFsyncs.isYes && f.handlerSyncsAfterWrite.isYes && f.chronSyncForwards.isYes &&
-  f.shortHeaderIsEOF.isYes && f.tornDataIsEOF != .unknown && f.truncatesTornTail != .unknown
+  f.shortHeaderIsEOF.isYes && f.tornDataIsEOF != .unknown && f.truncatesTornTail != .unknown &&
+  f.flushesAtCountBound.isYes && f.validatesCrc.isYes && f.validatesULen.isYes && f.parseConsumesAll.isYes
 
 def findings (f : Facts) : List String :=
   (if f.tornDataIsEOF.isYes then [] else ["C02-torn-payload-load-error"]) ++
@@ -588,7 +761,7 @@ theorem classify_sound (f : Facts) : (classify f).Sound (Holds (cfgOf f)) (Parti
   · rename_i hm
     simp only [Bool.not_eq_true', Bool.not_eq_false] at hm
     simp only [modelApplies, Bool.and_eq_true] at hm
-    obtain ⟨⟨⟨⟨⟨⟨⟨⟨⟨_, _⟩, _⟩, hsf⟩, _⟩, _⟩, _⟩, hsh⟩, _⟩, _⟩ := hm
+    obtain ⟨⟨⟨⟨⟨⟨⟨⟨⟨⟨⟨⟨⟨_, _⟩, _⟩, hsf⟩, _⟩, _⟩, _⟩, hsh⟩, _⟩, _⟩, _⟩, _⟩, _⟩, _⟩ := hm
     split
     · rename_i hfnd
       simp only [findings, List.append_eq_nil_iff] at hfnd
